@@ -202,6 +202,76 @@ def replay(arg):
         p.close()
 
 
+def big_project(arg):
+    """many sources: build, clean (nothing of the build may be left), build
+    (everything is back), change the common header (every object
+    recompiles, the program prints the new value)"""
+    backend, n = arg
+    files = {'common.h': '#define K 1\n',
+             'main.c': '#include <stdio.h>\n' + ''.join(
+                 'int f%d(void);' % i for i in range(n)) +
+             '\nint main(void){int t = 0;' + ''.join(
+                 't += f%d();' % i for i in range(n)) +
+             'printf("%d\\n", t);return 0;}\n',
+             'build.bfg': "project('p')\nexecutable('prog', ['main.c'] + "
+             "['f%%d.c' %% i for i in range(%d)], includes=['.'])\n" % n}
+    for i in range(n):
+        files['f%d.c' % i] = ('#include "common.h"\nint f%d(void)'
+                              '{return K;}\n' % i)
+    p = regen.Proj(files, backend=backend)
+    ev = {'op': 'big', 'f': '', 'g': '', 'exit': -1, 'left': [],
+          'missing': [], 'recompiled': -1, 'nsources': n, 'output': -1,
+          'want': 2 * n, 'note': ''}
+    try:
+        wrapper = make_wrapper(p.root)
+        p.env['CC'] = wrapper
+        for k in ('CXX', 'AR'):
+            p.env.pop(k, None)
+        rc, out = p.configure()
+        if rc == 0:
+            rc, out = p.tool(['-j8'])
+        if rc != 0:
+            ev['exit'], ev['note'] = 100 + rc, out[-300:]
+            return [ev]
+
+        def products():
+            out_ = set()
+            for dp, dns, fns in os.walk(p.bld):
+                for f in fns:
+                    if f.endswith(('.o', '.d')) or f == 'prog':
+                        out_.add(os.path.relpath(os.path.join(dp, f), p.bld))
+            return out_
+        built = products()
+        rc, out = p.tool(['clean'] if backend == 'make' else ['-t', 'clean'])
+        ev['left'] = sorted(products())[:10]
+        rc, out = p.tool(['-j8'])
+        # (ninja keeps dependency information in its own log, not in .d files)
+        now = products()
+        ev['missing'] = sorted(x for x in built - now
+                               if backend == 'make' or not x.endswith('.d'))[:10]
+        p.tick()
+        regen.write(os.path.join(p.src, 'common.h'), '#define K 2\n')
+        cclog = os.path.join(p.root, 'cc.log')
+        rc, out = p.tool(['-j8'], env={'VERIF_CCLOG': cclog})
+        ev['exit'] = rc
+        if os.path.exists(cclog):
+            ev['recompiled'] = len({os.path.basename(x.strip())
+                                    for x in open(cclog)
+                                    if os.path.basename(x.strip())[0] == 'f'})
+        prog = os.path.join(p.bld, 'prog')
+        if os.path.exists(prog):
+            r = subprocess.run([prog], capture_output=True, text=True)
+            try:
+                ev['output'] = int(r.stdout.strip())
+            except ValueError:
+                pass
+        if rc:
+            ev['note'] = out[-300:]
+        return [ev]
+    finally:
+        p.close()
+
+
 def main(argv):
     ck = Check('C07', argv)
     names_ok = [n for n, ok in zip(CANDIDATES, pmap(reference_ok, CANDIDATES))
@@ -286,6 +356,20 @@ def main(argv):
     rej2, st2 = validate_traces('Incr_Trace', trace_cfg(True), traces[npl:],
                                 chunk=60)
     rej.update(rej2)
+    # many sources (batching of the clean command, many depfiles)
+    bjobs = [(b, 70 if ck.quick else 150) for b in ('make', 'ninja')]
+    bres = pmap(big_project, bjobs, jobs=2)
+    nb0 = len(traces)
+    btr = [{'id': nb0 + i + 1, 'events': [
+        {k: v for k, v in e.items() if k != 'note'} for e in ev]}
+        for i, ev in enumerate(bres)]
+    rej3, st3 = validate_traces('Incr_Trace', trace_cfg(False), btr, chunk=60)
+    rej.update(rej3)
+    for k in ('distinct', 'generated'):
+        st[k] += st3[k]
+    traces += btr
+    res += bres
+    jobs += [([], b, {'h1': 'common.h', 'big': str(n_)}) for b, n_ in bjobs]
     for k in ('distinct', 'generated'):
         st[k] += st2[k]
     ck.traces = len(traces)
